@@ -36,9 +36,15 @@ namespace ratio
         case Undefined:
 #ifdef GRAPH_PRUNING
             prune(); // we prune the graph..
+            if (slv.get_sat_core().value(gamma) == False)
+            { // pruning has shown that the current graph cannot contain a solution (some not yet expanded flaw is already active): we extend it..
+                check();
+                return;
+            }
 #endif
             // we take 'gamma' decision..
-            slv.take_decision(lit(gamma));
+            if (slv.get_sat_core().value(gamma) == Undefined)
+                slv.take_decision(lit(gamma));
         }
     }
 } // namespace ratio
